@@ -189,8 +189,44 @@ func (in *Interp) dispatch(cc *CallCtx, ret func(*State, []Val)) {
 			}
 		}
 		if in.NoInline != nil && in.NoInline(fn) {
-			st.emit(&Sym{Kind: "callatom", Name: fn.FullName(), Pos: cc.Site.Pos(), Args: cc.Args})
-			in.forkErr(sig, st, ret)
+			name := shortFuncName(fn)
+			st.emit(&Sym{Kind: "callatom", Name: name, Pos: cc.Site.Pos(), Args: cc.Args, Arg: derefVal(cc.Recv)})
+			n := sig.Results().Len()
+			// a boolean predicate: a named atom answered consistently along the path
+			if n == 1 {
+				if b, ok := sig.Results().At(0).Type().Underlying().(*types.Basic); ok && b.Kind() == types.Bool {
+					var ks []string
+					if cc.Recv != nil {
+						ks = append(ks, nameOf(*cc.Recv))
+					}
+					for _, a := range cc.Args {
+						ks = append(ks, nameOf(a))
+					}
+					ret(st, []Val{{K: KExpr, Key: name + "(" + strings.Join(ks, ",") + ")", T: sig.Results().At(0).Type()}})
+					return
+				}
+			}
+			if n > 0 && isErrorType(sig.Results().At(n-1).Type()) {
+				in.forkErr(sig, st, func(s *State, vals []Val) {
+					out := "ok"
+					if vals[n-1].K == KNonNil {
+						out = "err"
+					}
+					s.emit(&Sym{Kind: "callret", Name: name, Extra: out, Pos: cc.Site.Pos()})
+					for i := 0; i < n-1; i++ {
+						if vals[i].K == KUnknown {
+							vals[i] = Val{K: KExpr, Key: fmt.Sprintf("%s#%d", name, i), T: sig.Results().At(i).Type()}
+						}
+					}
+					ret(s, vals)
+				})
+				return
+			}
+			vals := in.unknownResults(sig)
+			for i := range vals {
+				vals[i] = Val{K: KExpr, Key: fmt.Sprintf("%s#%d", name, i), T: sig.Results().At(i).Type()}
+			}
+			ret(st, vals)
 			return
 		}
 		in.inline(fn, cc.Recv, cc.Args, st, cc.Fr, cc.Site.Pos(), ret)
@@ -686,4 +722,15 @@ func (in *Interp) markGetterFields(m *types.Func) {
 			return true
 		})
 	}
+}
+
+// shortFuncName: "recvType.method" or "func" without package paths.
+func shortFuncName(fn *types.Func) string {
+	sig := fn.Type().(*types.Signature)
+	if sig.Recv() != nil {
+		if n := namedOf(sig.Recv().Type()); n != nil {
+			return n.Obj().Name() + "." + fn.Name()
+		}
+	}
+	return fn.Name()
 }
